@@ -53,7 +53,7 @@ partial def loop (prop : String) (stdin : IO.FS.Stream) (h : Hist) (inHash : UIn
   let line := (line.dropEndWhile (· == '\n')).toString
   if line.startsWith "E\t" then
     let h := h.finish
-    let mon := if prop == "C12" then monC12 prev h else monitorFor3 prop h
+    let mon := if prop == "C12" then monC12 prev h else monitorFor4 prop h
     let corr := checkHistory h
     IO.println s!"STAT\t{h.id}\t{h.cls}\t{inHash}\t{if nontrivial h then 1 else 0}\t{signature h}"
     match mon with
